@@ -22,6 +22,7 @@ RULE = (
     "sets (3 same-beat modes x (join off | join on x 3x3 orphan policies)) plus the count functions. Non-trivial "
     "when the stream holds a head or a tail or two notes on one beat."
 )
+EXHAUSTIVE_PART = "every stream on 2 columns x 3 rows (quick) / 2 x 4 rows and 3 columns x 3 rows (thorough) over {empty, tap, hold head, tail, mine} x all 30 option sets"
 ASSUMPTIONS = ["vmon/ref/grouping.py states the documented rules"]
 MONITORS = ["group", "group_raises", "count_steps", "count_mines", "count_holds_rolls"]
 REQUIRED = ["overlapping_holds", "interrupted_head", "orphan_tail", "unclosed_head", "same_beat_mixed_types",
@@ -75,6 +76,12 @@ def cases(ctx):
     for bi, c0 in enumerate(range(0, total, block)):
         if ctx.mine(bi):
             yield {"kind": "grid", "rows": rows, "c0": c0, "c1": min(total, c0 + block)}
+    if not quick:
+        # a second exhaustive grid: 3 columns x 3 rows (5^9 streams), for what needs three columns
+        total3 = 5 ** 9
+        for bi, c0 in enumerate(range(0, total3, 625)):
+            if ctx.mine(bi):
+                yield {"kind": "grid", "rows": 3, "cols": 3, "c0": c0, "c1": min(total3, c0 + 625)}
     ctx.exhaustive = True
     if ctx.shard == 0:
         for name, ch in c07.corpus_charts():
@@ -123,14 +130,14 @@ def check(ctx, case):
         ctx.begin(case, nontrivial=False)
         ctx.evaluations -= 1
         for code in range(case["c0"], case["c1"]):
-            notes = grid_stream(code, case["rows"])
+            notes = grid_stream(code, case["rows"], case.get("cols", 2))
             ctx.evaluations += 1
-            ctx.digests.add(hash(("grid", case["rows"], code)) & 0xFFFFFFFFFFFFFFFF)
-            run_stream(ctx, notes, None, None, {"kind": "grid1", "rows": case["rows"], "code": code})
+            ctx.digests.add(hash(("grid", case["rows"], case.get("cols", 2), code)) & 0xFFFFFFFFFFFFFFFF)
+            run_stream(ctx, notes, None, None, {"kind": "grid1", "rows": case["rows"], "cols": case.get("cols", 2), "code": code})
         return
     if case["kind"] == "grid1":
         ctx.begin(case)
-        run_stream(ctx, grid_stream(case["code"], case["rows"]), None, None, case)
+        run_stream(ctx, grid_stream(case["code"], case["rows"], case.get("cols", 2)), None, None, case)
         return
     if case["kind"] == "corpus":
         from simfile.notes import NoteData
